@@ -777,7 +777,7 @@ func (x *c07Run) setBase(m *material) {
 
 var stringSeeds = map[string][]string{
 	"AsLocation": {"1..10", "complement(join(1..5,7..9))", "<1..>5", "1.5", "3^4", "order(1,3..4,complement(8..9))", "join(complement(1..2),4)", "42", "complement(order(1..2,5..6))"},
-	"AsLocator":  {"^..$", "CDS/gene=A@^-10..$", "1..10", "3", "@^..$", "gene@^..^+30", "$-20..$", "source", "10..1@^+1..$-1", "CDS/product=prot.*/gene"},
+	"AsLocator":  {"^..$", "CDS/gene=A@^-10..$", "1..10", "3", "@^..$", "gene@^..^+30", "$-20..$", "source", "10..1@^+1..$-1", "CDS/product=prot.*/gene", "3'UTR", "5'UTR@^..^+3", "-35_signal", "complement(2..9)", "D-loop", "misc_feature/note=1..2"},
 	"AsModifier": {"^..$", "^-10..^+5", "$-3..$", "^+1..$-1", "^", "$", "^-5", "$+5", "^..^", "$..$"},
 	"Selector":   {"CDS", "CDS/gene=A/product", "/note=x.*", "gene/locus_tag", "/", "source/organism=Esch.*", "source/mol_type=\\/", "CDS/note=a\\/b/gene", "/note=[", "CDS/gene=(", "a/b=c/d=e/f"},
 	"AsDate":     {"11-OCT-2018", "29-FEB-2000", "01-Jan-1999", "31-12-2020", "31-APR-2021", "29-FEB-2019", "00-JAN-2020", "32-DEC-1999", "31-JUN-2020"},
@@ -810,6 +810,19 @@ func callString(fn, in string) (pnc string, accepted bool) {
 		if loc, err = gts.AsLocator(in); err == nil && loc != nil {
 			// a locator is only useful applied to a sequence
 			loc(gts.New(nil, gts.FeatureSlice{gts.NewFeature("CDS", gts.Range(2, 20), gts.Props{[]string{"gene", "A"}})}, []byte(strings.Repeat("acgt", 10))))
+			// A locator is a modifier, a location or a selector, with or
+			// without "@modifier" behind it. What is neither a modifier nor a
+			// location can only be a selector, and a selector finds nothing
+			// on a sequence that has no features.
+			base := in
+			if i := strings.IndexByte(in, '@'); i >= 0 {
+				base = in[:i]
+			}
+			if _, merr := gts.AsModifier(base); base != "" && merr != nil && !refLocation(base) {
+				if rr := loc(gts.New(nil, nil, []byte(strings.Repeat("acgt", 10)))); len(rr) != 0 {
+					return fmt.Sprintf("ACCEPTED-MALFORMED: %q is neither a modifier nor a location, so it can only select features - yet on a sequence without any feature it locates %d region(s): something was read off its front and the rest ignored", base, len(rr)), true
+				}
+			}
 		}
 	case "AsModifier":
 		var mod gts.Modifier
@@ -1040,7 +1053,7 @@ func grammarNoise(r *core.RNG) string {
 
 // ---- scaling (T7) ----
 
-var scalingShapes = []string{"comment-lines", "definition-lines", "features", "qualifiers", "qualifier-lines", "origin", "records", "fasta-lines", "fasta-records", "dblink", "references", "keywords", "extra-fields", "unknown-lines", "location-parts", "literal-lines", "origin-crlf", "fasta-long-line", "taxonomy-lines", "contig-parts", "contig-no-colon-lines", "distinct-qualifier-names", "locus-blank-run"}
+var scalingShapes = []string{"comment-lines", "definition-lines", "features", "qualifiers", "qualifier-lines", "origin", "records", "fasta-lines", "fasta-records", "dblink", "references", "keywords", "extra-fields", "unknown-lines", "location-parts", "literal-lines", "origin-crlf", "fasta-long-line", "taxonomy-lines", "contig-parts", "contig-no-colon-lines", "distinct-qualifier-names", "locus-blank-run", "locus-blank-run-words"}
 
 // scaledStream builds a well-formed stream in which one part has n units.
 func scaledStream(shape string, n int) []byte {
@@ -1057,12 +1070,18 @@ func scaledStream(shape string, n int) []byte {
 		return o.String()
 	}
 	head := func(length int) {
-		if shape == "locus-blank-run" {
+		if shape == "locus-blank-run" || shape == "locus-blank-run-words" {
 			// the run of blanks behind LOCUS sets the indent of every field;
 			// the short lines that follow are skipped one by one
 			fmt.Fprintf(&b, "LOCUS%s%-17s %10d bp    DNA     linear   SYN 01-JAN-2000\n", strings.Repeat(" ", 7+20*n), "SCALE", length)
 			for i := 0; i < 10*n; i++ {
-				b.WriteString("x\n")
+				if shape == "locus-blank-run-words" {
+					// a capital word at the start of a line is a field name
+					// to be checked against that indent
+					b.WriteString("ABCDEFGH\n")
+				} else {
+					b.WriteString("x\n")
+				}
 			}
 			return
 		}
@@ -1341,7 +1360,7 @@ var stringShapes = map[string]string{
 }
 
 // hostileShapes are scaled streams that the scanner rejects.
-var hostileShapes = map[string]bool{"locus-blank-run": true}
+var hostileShapes = map[string]bool{"locus-blank-run": true, "locus-blank-run-words": true}
 
 var stringShapeNames = []string{"str-join-flat", "str-join-nested", "str-complement-nested", "str-order-flat", "str-selector-slashes", "str-selector-segments", "str-locator-segments", "str-open-parens", "str-join-complements"}
 
@@ -1584,6 +1603,9 @@ func (C07) RunSeed(tier string, seed uint64, idx int) *core.Result {
 					in = smallLocation(r, 0)
 					if fn == "AsLocator" && r.Chance(1, 2) {
 						in = "@" + in
+					} else if fn == "AsLocator" && r.Chance(1, 2) {
+						// a location with something behind it
+						in += []string{"x", "'UTR", "_signal", "..", " ", "/gene", ")", "abc", "-"}[r.Intn(9)]
 					}
 				case 0:
 					in = grammarNoise(r)
